@@ -26,8 +26,12 @@ import (
 	"io"
 	"net"
 	"os"
+	"regexp"
+	"runtime"
 	"runtime/debug"
+	"sort"
 	"strconv"
+	"strings"
 	"sync"
 	"sync/atomic"
 	"testing"
@@ -130,9 +134,23 @@ type vwRun struct {
 	pingId int64
 	gmu    sync.Mutex
 	gates  map[vwGateKey]*vwGate
+	// watchdog: the runner goroutine stamps every (sub-)step that waits for the code under test
+	since  int64        // unix nanos of the last stamp (atomic)
+	stage  atomic.Value // string: what is being waited for
+	stepI  int32        // index of the scenario step (atomic)
+	stepC  int32        // connection of the step (atomic)
+	dead   int32        // set by the watchdog: the world is abandoned, nothing it still says is recorded (atomic)
+}
+
+func (r *vwRun) mark(what string) {
+	r.stage.Store(what)
+	atomic.StoreInt64(&r.since, time.Now().UnixNano())
 }
 
 func (r *vwRun) emit(ev map[string]interface{}) {
+	if atomic.LoadInt32(&r.dead) != 0 {
+		return
+	}
 	r.tr.Emit(ev)
 	r.tr.mu.Lock()
 	r.tr.w.Flush()
@@ -315,7 +333,7 @@ func vwParseResp(b []byte) (int, interface{}) {
 // settle waits until every byte written by the server on a pipe whose client side is still reading has
 // been parsed and recorded.
 func (r *vwRun) settle() {
-	deadline := time.Now().Add(60 * time.Second)
+	deadline := time.Now().Add(600 * time.Second) // the watchdog fires long before
 	for {
 		ok := true
 		for _, id := range r.order {
@@ -578,6 +596,7 @@ func (r *vwRun) pingFrame() ([]byte, int64) {
 }
 
 func (r *vwRun) awaitPong(c *vwConn, id int64) {
+	r.mark(fmt.Sprintf("binary connection %d does not answer (PONG behind the last command never arrived)", c.id))
 	for {
 		select {
 		case got := <-c.pong:
@@ -589,7 +608,7 @@ func (r *vwRun) awaitPong(c *vwConn, id int64) {
 			}
 		case <-c.readerEnd:
 			return
-		case <-time.After(60 * time.Second):
+		case <-time.After(600 * time.Second): // the watchdog fires long before
 			panic(fmt.Sprintf("vw: no PONG on connection %d", c.id))
 		}
 	}
@@ -685,6 +704,7 @@ func (r *vwRun) request(s *vwStep) {
 			time.Sleep(200 * time.Microsecond)
 		}
 	}
+	r.mark(fmt.Sprintf("reply to %s of connection %d never arrived", strings.ToUpper(s.Op), c.id))
 	r.nextId++
 	id := r.nextId
 	cmd := "L"
@@ -728,7 +748,7 @@ func (r *vwRun) request(s *vwStep) {
 		return
 	}
 	c.sent++
-	deadline := time.Now().Add(60 * time.Second)
+	deadline := time.Now().Add(600 * time.Second) // the watchdog fires long before
 	for {
 		if atomic.LoadInt64(&c.replies) > before {
 			break
@@ -771,7 +791,7 @@ func (r *vwRun) doInit(s *vwStep) {
 		c.cid = s.Cid
 		r.emit(map[string]interface{}{"e": "winit", "c": c.id, "cid": s.Cid, "res": res[0], "itype": res[1], "t": r.w.now})
 	case <-c.readerEnd:
-	case <-time.After(60 * time.Second):
+	case <-time.After(600 * time.Second):
 		panic("vw: no INIT result")
 	}
 	r.ping(c)
@@ -809,6 +829,7 @@ func vwLimit(limit time.Duration) time.Duration {
 
 func (r *vwRun) waitClosedOrParked(c *vwConn, limit time.Duration) {
 	limit = vwLimit(limit)
+	r.mark(fmt.Sprintf("Close() of connection %d did not return", c.id))
 	select {
 	case <-c.stream.closedWaiter:
 		r.dropGates(c.id)
@@ -937,6 +958,7 @@ func (r *vwRun) pollCloses(block bool) {
 		}
 		limit := time.Duration(0)
 		if block {
+			r.mark(fmt.Sprintf("Close() of connection %d did not return", c.id))
 			limit = vwLimit(45 * time.Second)
 		} else if tp, ok := c.proto.(*TextServerProtocol); ok && !c.answered && tp.lockRequestId == [16]byte{} {
 			c.answered = true
@@ -971,6 +993,7 @@ func (r *vwRun) pollCloses(block bool) {
 
 func (r *vwRun) tick(n int) {
 	for i := 0; i < n; i++ {
+		r.mark("clock tick: a timeout / expiry sweep did not return")
 		r.settle()
 		r.w.Tick("te")
 		r.settle()
@@ -1020,6 +1043,7 @@ func (r *vwRun) drain(n int) {
 				any = true
 				u := &vReq{Op: "unlock", Conn: 99, Db: k.Db, Key: k.Key, Lid: h.Lid, Rcount: 0}
 				did++
+				r.mark("drain: unlock of a remaining hold did not return")
 				r.w.curReq = did
 				r.w.Issue(did, u)
 				r.w.curReq = -1
@@ -1038,6 +1062,9 @@ func (r *vwRun) drain(n int) {
 func (r *vwRun) run(sc *vwScenario) {
 	for i := range sc.Steps {
 		s := &sc.Steps[i]
+		atomic.StoreInt32(&r.stepI, int32(i))
+		atomic.StoreInt32(&r.stepC, int32(s.C))
+		r.mark("step " + s.Op + " did not finish")
 		switch s.Op {
 		case "conn":
 			r.connect(s.C, s.Kind)
@@ -1097,37 +1124,151 @@ func TestVerifW(t *testing.T) {
 	if v := os.Getenv("VERIF_IDX0"); v != "" {
 		base, _ = strconv.Atoi(v)
 	}
-	for i, sc := range scs {
-		w := vNewWorld(t, vWorldCfg{}, tr, 1000)
-		w.db(0)
-		r := &vwRun{w: w, srv: NewServer(w.slock), tr: tr, conns: map[int]*vwConn{}, gates: map[vwGateKey]*vwGate{}}
-		VerifPointFunc = func(name string, a interface{}, b interface{}) {
-			if name != "lock.mgr.got" && name != "unlock.mgr.got" {
-				return
-			}
-			cmd, ok := b.(*protocol.LockCommand)
-			if !ok || cmd == nil {
-				return
-			}
-			k := vwGateKey{rid: cmd.RequestId}
-			r.gmu.Lock()
-			g := r.gates[k]
-			if g != nil {
-				delete(r.gates, k)
-			}
-			r.gmu.Unlock()
-			if g == nil {
-				return
-			}
-			ch := make(chan struct{})
-			vwReleases.Store(g.id, ch)
-			r.conns[g.c].parked <- g.id
-			<-ch
+	limit := 20 * time.Second
+	if v := os.Getenv("VERIF_STEP_DEADLINE"); v != "" {
+		if n, err := strconv.Atoi(v); err == nil && n > 0 {
+			limit = time.Duration(n) * time.Second
 		}
-		r.emit(map[string]interface{}{"e": "begin", "name": sc.Name, "idx": base + i, "t": int64(1000)})
-		r.run(&sc)
-		r.emit(map[string]interface{}{"e": "end", "name": sc.Name, "idx": base + i, "t": w.now, "complete": sc.Complete})
-		VerifPointFunc = nil
-		w.Close(true)
 	}
+	for i, sc := range scs {
+		sc := sc
+		r := &vwRun{tr: tr, conns: map[int]*vwConn{}, gates: map[vwGateKey]*vwGate{}}
+		r.mark("building the server")
+		done := make(chan struct{})
+		// the history runs on its own goroutine: every wait for the code under test (a reply, a PONG, Close(), a
+		// sweep) is watched from here; a step normally takes microseconds
+		go func() {
+			defer close(done)
+			w := vNewWorld(t, vWorldCfg{}, tr, 1000)
+			w.db(0)
+			r.w, r.srv = w, NewServer(w.slock)
+			vwInstallHook(r)
+			r.emit(map[string]interface{}{"e": "begin", "name": sc.Name, "idx": base + i, "t": int64(1000)})
+			r.run(&sc)
+			r.mark("tearing the server down")
+			r.emit(map[string]interface{}{"e": "end", "name": sc.Name, "idx": base + i, "t": w.now, "complete": sc.Complete})
+			VerifPointFunc = nil
+			w.Close(true)
+		}()
+		hung := false
+		for !hung {
+			select {
+			case <-done:
+			case <-time.After(100 * time.Millisecond):
+				if time.Since(time.Unix(0, atomic.LoadInt64(&r.since))) > limit {
+					hung = true
+				}
+				continue
+			}
+			break
+		}
+		if hung {
+			what, _ := r.stage.Load().(string)
+			frame, state, blocked := vwBlockedFrames()
+			atomic.StoreInt32(&r.dead, 1)
+			ev := map[string]interface{}{"e": "hang", "step": int(atomic.LoadInt32(&r.stepI)), "conn": int(atomic.LoadInt32(&r.stepC)),
+				"what": what, "kind": map[bool]string{true: "close", false: "reply"}[strings.HasPrefix(what, "Close()")], "frame": frame, "state": state, "blocked": blocked, "deadline_s": int(limit / time.Second), "t": int64(0)}
+			tr.Emit(ev)
+			tr.Emit(map[string]interface{}{"e": "end", "name": sc.Name, "idx": base + i, "t": int64(0), "complete": false, "hung": true})
+			tr.mu.Lock()
+			tr.w.Flush()
+			tr.mu.Unlock()
+			VerifPointFunc = nil
+			// the world is abandoned (its goroutines leak); the rest of the shard is run by a fresh process
+			fmt.Printf("VW-HANG-STOP %d %s\n", base+i, sc.Name)
+			return
+		}
+	}
+}
+
+func vwInstallHook(r *vwRun) {
+	VerifPointFunc = func(name string, a interface{}, b interface{}) {
+		if name != "lock.mgr.got" && name != "unlock.mgr.got" {
+			return
+		}
+		cmd, ok := b.(*protocol.LockCommand)
+		if !ok || cmd == nil {
+			return
+		}
+		k := vwGateKey{rid: cmd.RequestId}
+		r.gmu.Lock()
+		g := r.gates[k]
+		if g != nil {
+			delete(r.gates, k)
+		}
+		r.gmu.Unlock()
+		if g == nil {
+			return
+		}
+		ch := make(chan struct{})
+		vwReleases.Store(g.id, ch)
+		r.conns[g.c].parked <- g.id
+		<-ch
+	}
+}
+
+// vwBlockedFrames: goroutine dump reduced to the goroutines that are blocked inside github.com/snower/slock code
+// (idle readers and the background loops of the server are left out).  Returns the first blocked non-harness frame
+// (the driver's own goroutine first: sweeps and drains run on it), its wait state, and up to six "state @ frame" lines.
+func vwBlockedFrames() (string, string, []string) {
+	buf := make([]byte, 16<<20)
+	buf = buf[:runtime.Stack(buf, true)]
+	harness := regexp.MustCompile(`^(\(\*v[wWCT]|vw|v[A-Z]|TestVerif)`)
+	idle := []string{"net.(*pipe).read", "AofChannel).Run", "TransparencyManager).Run", "handleFreeCollect", "checkProtocolFreeCommandQueue",
+		"SubscribeManager)", "ReplicationManager)", "ArbiterManager)", "runtime.Stack"}
+	type blk struct {
+		state, frame string
+		driver       bool
+	}
+	var found []blk
+	for _, g := range strings.Split(string(buf), "\n\n") {
+		lines := strings.Split(g, "\n")
+		if len(lines) < 2 || !strings.HasPrefix(lines[0], "goroutine ") {
+			continue
+		}
+		skip := false
+		for _, k := range idle {
+			if strings.Contains(g, k) {
+				skip = true
+			}
+		}
+		if skip {
+			continue
+		}
+		state := ""
+		if a, b := strings.Index(lines[0], "["), strings.Index(lines[0], "]"); a >= 0 && b > a {
+			state = strings.Split(lines[0][a+1:b], ",")[0]
+		}
+		frame := ""
+		for _, l := range lines[1:] {
+			const pfx = "github.com/snower/slock/server."
+			if !strings.HasPrefix(l, pfx) {
+				continue
+			}
+			fn := l[len(pfx):]
+			if k := strings.LastIndex(fn, "("); k > 0 {
+				fn = fn[:k]
+			}
+			if harness.MatchString(fn) {
+				continue
+			}
+			frame = fn
+			break
+		}
+		if frame == "" {
+			continue
+		}
+		found = append(found, blk{state, frame, strings.Contains(g, "(*vwRun).run")})
+	}
+	sort.SliceStable(found, func(i, j int) bool { return found[i].driver && !found[j].driver })
+	out := []string{}
+	for i, b := range found {
+		if i < 6 {
+			out = append(out, b.state+" @ "+b.frame)
+		}
+	}
+	if len(found) == 0 {
+		return "none", "none", out
+	}
+	return found[0].frame, found[0].state, out
 }
